@@ -324,6 +324,7 @@ class Ctx:
 
     def select(self):
         self.n_kind = {}
+        chosen = []
         for kind in ("cp", "hals", "ls", "norm", "reg", "tk", "cmtf", "tkreg", "tr"):
             groups = {}
             for c in self.cands[kind]:
@@ -336,16 +337,18 @@ class Ctx:
                     if len(groups[g]) > depth and len(picked) < budget:
                         picked.append(groups[g][depth])
                 depth += 1
-            for (_, lit_fn, payload, descr) in picked:
-                cid = len(self.cases)
-                self.cases.append(lit_fn(cid, payload))
-                self.meta.append((kind, descr, payload))
-            if kind == "cp": self.n_cp = len(picked)
-            if kind == "hals": self.n_hals = len(picked)
-            if kind == "ls": self.n_ls = len(picked)
-            if kind == "norm": self.n_norm = len(picked)
-            if kind == "reg": self.n_reg = len(picked)
+            chosen += [(kind,) + tuple(c[1:]) for c in picked]
             self.n_kind[kind] = len(picked)
+        self.n_cp, self.n_hals, self.n_ls = self.n_kind["cp"], self.n_kind["hals"], self.n_kind["ls"]
+        self.n_norm, self.n_reg = self.n_kind["norm"], self.n_kind["reg"]
+        # the kinds differ a lot in cost: deal the cases out over the shards like cards so that every shard gets its share
+        n_sh = max(1, min(C.NPROC, (len(chosen) + 7) // 8)) if self.tier == "quick" else max(1, (len(chosen) + 15) // 16)
+        self.shard_size = max(1, -(-len(chosen) // n_sh))
+        dealt = [c for k in range(n_sh) for c in chosen[k::n_sh]]
+        for (kind, lit_fn, payload, descr) in dealt:
+            cid = len(self.cases)
+            self.cases.append(lit_fn(cid, payload))
+            self.meta.append((kind, descr, payload))
 
 
 def attempt(ctx, entry):
@@ -956,6 +959,8 @@ def run_tr_als(ctx, n_runs):
         # cores of sweep t for the modes < d and of sweep t-1 (t = 1: the initial guess) for the others (callback iterates)
         if len(cores) >= 2 and X.size <= 40 and all(len(c) == nd for c in cores):
             t, d = rng.randrange(1, len(cores)), rng.randrange(nd)
+            square = [k2 for k2 in range(nd) if cores[0][k2].shape[0] > 1 and cores[0][k2].shape[2] > 1]
+            if square: d = rng.choice(square)      # both bond ranks > 1: the (a, b) layout of the design matrix / core matters
             before = [cores[t][k2] if k2 < d else cores[t - 1][k2] for k2 in range(nd)]
             newc = cores[t][d]
             design = None
@@ -1061,7 +1066,7 @@ def run_regressors(ctx, n_runs):
         r = np_rng(rng)
         kind = ["cp", "tucker", "cp-multi"][it % 3]       # cp-multi: matrix-valued responses (the branch of the output modes)
         dims = rng.choice([(3, 2), (2, 3), (2, 2, 2)])
-        ns = 12
+        ns = 8 if kind == "cp-multi" else 12
         Xs = r.randn(ns, *dims)
         odims = (rng.choice([2, 3]),) if kind == "cp-multi" else ()
         Wtrue = r.randn(*dims, *odims)
@@ -1189,7 +1194,7 @@ def run(chk):
     for fn, n in PLAN(quick):
         fn(ctx, n)
     ctx.select()
-    failing, n_eval, broken = C.run_case_shards("C07", HEADER, "case", ctx.cases, shard=10 if quick else 16, timeout=900)
+    failing, n_eval, broken = C.run_case_shards("C07", HEADER, "case", ctx.cases, shard=ctx.shard_size, timeout=900)
     chk.checker_cmds.append("coqc (vm_compute, Qops) on generated build/cases/C07/*.v: Corr.C07.failing")
     chk.cov["traces_validated_against_impl"] = n_eval
     chk.cov["exhaustive"] = False
